@@ -231,6 +231,243 @@ def result_dom(syms, t):
 
 
 # ---------------------------------------------------------------------------------------------
+# genomes: a program is handed to vita as the matrix genome_(row, category) of an i_mep
+# ---------------------------------------------------------------------------------------------
+
+class TooBig(Exception):
+    pass
+
+
+class Genome:
+    """n rows x len(doms) categories; doms[c] = domain of category c (doms[0] = domain of the best
+       locus [0,0]); cells[(r, c)] = ('T', kind, payload, dom) | ('F', key, (d0, d1), [arg rows])"""
+
+    def __init__(self, n, doms, cells):
+        self.n, self.doms, self.cells = n, list(doms), cells
+
+    def to_json(self):
+        return {"n": self.n, "doms": self.doms,
+                "cells": [[r, c, list_gene(g)] for (r, c), g in sorted(self.cells.items())]}
+
+    @staticmethod
+    def from_json(o):
+        return Genome(o["n"], o["doms"], {(r, c): tuple_gene(g) for r, c, g in o["cells"]})
+
+
+def list_gene(g):
+    if g[0] == "T":
+        return ["T", g[1], list(g[2]) if isinstance(g[2], tuple) else g[2], g[3]]
+    return ["F", g[1], list(g[2]), list(g[3])]
+
+
+def tuple_gene(g):
+    if g[0] == "T":
+        return ("T", g[1], tuple(g[2]) if isinstance(g[2], list) else g[2], g[3])
+    return ("F", g[1], tuple(g[2]), list(g[3]))
+
+
+def arg_loci(gen, G, g):
+    """g.locus_of_argument(i): (args[i], arg_category(i))"""
+    cm = {d: i for i, d in enumerate(G.doms)}
+    s = gen.syms[g[1]]
+    return [(a, cm[d]) for a, d in zip(g[3], gen.arg_doms(s, g[2][0], g[2][1]))]
+
+
+def unfold(gen, G, r=0, c=0, budget=None):
+    """the program as a tree, unfolded from locus [r,c] (the generator's own unfolding: the oracles
+       work on this tree; the Lean model unfolds the genome itself and the two are compared)"""
+    count = [0]
+
+    def go(r, c):
+        count[0] += 1
+        if budget is not None and count[0] > budget:
+            raise TooBig()
+        g = G.cells[(r, c)]
+        if g[0] == "T":
+            return g
+        return ("F", g[1], g[2], [go(a, ac) for a, ac in arg_loci(gen, G, g)])
+
+    return go(r, c)
+
+
+def genome_stats(gen, G):
+    """active loci, references per locus, rows holding several active genes"""
+    refs, order, stack = {(0, 0): 0}, [], [(0, 0)]
+    while stack:
+        l = stack.pop()
+        order.append(l)
+        g = G.cells[l]
+        if g[0] == "F":
+            for al in arg_loci(gen, G, g):
+                if al not in refs:
+                    refs[al] = 0
+                    stack.append(al)
+                refs[al] += 1
+    rows = {}
+    for (r, c) in refs:
+        rows.setdefault(r, set()).add(c)
+    # a locus referenced from two argument positions of ONE gene
+    twice = 0
+    for l in refs:
+        g = G.cells[l]
+        if g[0] == "F":
+            al = arg_loci(gen, G, g)
+            if len(set(al)) < len(al):
+                twice += 1
+    return {"active": len(refs), "shared_rows": sum(1 for v in rows.values() if len(v) > 1),
+            "max_in_row": max(len(v) for v in rows.values()),
+            "shared_genes": sum(1 for v in refs.values() if v > 1), "max_refs": max(list(refs.values()) + [1]),
+            "same_gene_twice_in_one_parent": twice}
+
+
+def junk_gene(gen, rng, doms, dom, r, n):
+    """an inactive gene of domain `dom` for row r of an n-row genome (valid: arguments in later rows)"""
+    if r < n - 1 and rng.chance(0.55):
+        ps = [(s, d0, d1) for (s, d0, d1) in gen.producers(dom)
+              if d0 in doms and d1 in doms and all(d in doms for d in gen.arg_doms(s, d0, d1))]
+        if ps:
+            s, d0, d1 = rng.choice(ps)
+            return ("F", s.key, (d0, d1), [rng.between(r + 1, n) for _ in range(s.arity)])
+    return gen.terminal(dom)
+
+
+def used_doms(syms, t, acc=None):
+    acc = set() if acc is None else acc
+    acc.add(result_dom(syms, t))
+    if t[0] == "F":
+        acc.add(t[2][0])
+        acc.add(t[2][1])
+        for k in t[3]:
+            used_doms(syms, k, acc)
+    return acc
+
+
+LAYOUT_MODES = ["chain", "packed", "packed", "spread"]
+SHARE_MODES = ["none", "all", "all", "some"]
+
+
+def layout(gen, rng, t, mode=None, share=None):
+    """place the program `t` into a genome.
+       mode : chain  = one active gene per row (what i_mep(vector<gene>) builds)
+              packed = every gene in the first free locus below its parents: genes of different
+                       categories share rows
+              spread = packed with random gaps
+       share: none = every occurrence of a sub-expression gets its own gene
+              all  = equal sub-expressions (same category) are ONE gene referenced from every parent
+                     and argument position (the genome is a DAG)
+              some = coin per occurrence
+       inactive loci are filled with valid random genes"""
+    syms = gen.syms
+    mode = mode or rng.choice(LAYOUT_MODES)
+    share = share or rng.choice(SHARE_MODES)
+    root_dom = result_dom(syms, t)
+    others = sorted(used_doms(syms, t) - {root_dom})
+    for i in range(len(others) - 1, 0, -1):          # Fisher-Yates
+        j = rng.below(i + 1)
+        others[i], others[j] = others[j], others[i]
+    doms = [root_dom] + others
+    if len(doms) < 4 and rng.chance(0.15):
+        doms.append(rng.choice([d for d in DOMS if d not in doms]))   # a category no active gene uses
+    cm = {d: i for i, d in enumerate(doms)}
+
+    nodes, memo = [], {}          # node = [gene-without-rows, dom, kid ids]
+
+    def build(n):
+        dom = result_dom(syms, n)
+        if n[0] == "T":
+            key, kids = n, []
+        else:
+            kids = [build(k) for k in n[3]]
+            key = ("F", n[1], n[2], tuple(kids))
+        if key in memo and share != "none" and (share == "all" or rng.chance(0.5)):
+            return memo[key]
+        nodes.append([n, dom, kids])
+        memo[key] = len(nodes) - 1
+        return len(nodes) - 1
+
+    root = build(t)
+    level = [0] * len(nodes)
+    parents = [[] for _ in nodes]
+    for i in range(len(nodes) - 1, -1, -1):          # a parent has a larger id than its kids
+        for k in nodes[i][2]:
+            level[k] = max(level[k], level[i] + 1)
+            parents[k].append(i)
+    order = sorted(range(len(nodes)), key=lambda i: (level[i], rng.next()))
+    row, taken, nextrow = {}, set(), 0
+    for i in order:
+        r = 0 if i == root else 1 + max(row[p] for p in parents[i])
+        c = cm[nodes[i][1]]
+        if mode == "chain":
+            r = max(r, nextrow)
+        else:
+            if mode == "spread" and i != root:
+                r += rng.below(3)
+            while (r, c) in taken:
+                r += 1
+        row[i] = r
+        taken.add((r, c))
+        nextrow = max(nextrow, r + 1)
+    n = nextrow + rng.below(3)
+    cells = {}
+    for i, (nd, dom, kids) in enumerate(nodes):
+        cells[(row[i], cm[dom])] = nd if nd[0] == "T" else ("F", nd[1], nd[2], [row[k] for k in kids])
+    for r in range(n):
+        for c, d in enumerate(doms):
+            if (r, c) not in cells:
+                cells[(r, c)] = junk_gene(gen, rng, doms, d, r, n)
+    G = Genome(n, doms, cells)
+    return G, mode, share
+
+
+def random_genome(gen, rng, n, doms, pfun=0.7):
+    """a genome filled the way vita fills one: every locus a random gene of its category, functions
+       point to later rows, the last row holds terminals"""
+    cells = {}
+    for r in range(n):
+        for c, d in enumerate(doms):
+            g = None
+            if r < n - 1 and (r == 0 and c == 0 or rng.chance(pfun)):
+                ps = [(s, d0, d1) for (s, d0, d1) in gen.producers(d)
+                      if d0 in doms and d1 in doms and all(x in doms for x in gen.arg_doms(s, d0, d1))]
+                if ps:
+                    s, d0, d1 = rng.choice(ps)
+                    g = ("F", s.key, (d0, d1), [rng.between(r + 1, n) for _ in range(s.arity)])
+            cells[(r, c)] = g or gen.terminal(d)
+    return Genome(n, doms, cells)
+
+
+def show_genome(gen, G):
+    """the active genes, in the style of vita's out::list"""
+    act, stack = set(), [(0, 0)]
+    while stack:
+        l = stack.pop()
+        if l in act:
+            continue
+        act.add(l)
+        if G.cells[l][0] == "F":
+            stack += arg_loci(gen, G, G.cells[l])
+    out = []
+    for l in sorted(act):
+        g = G.cells[l]
+        if g[0] == "T":
+            out.append("[%d,%d] %s" % (l[0], l[1], show(g)))
+        else:
+            out.append("[%d,%d] %s %s" % (l[0], l[1], g[1], " ".join("[%d,%d]" % al for al in arg_loci(gen, G, g))))
+    return "; ".join(out)
+
+
+def term_kind_of(t):
+    """the terminal kind (as in Gen.term_kinds) of a terminal node"""
+    k = t[1]
+    if k == "var":
+        return "var"
+    sg = "-" if neg_term(t) else "+"
+    return {"real::real": "real" + sg, "real::integer": "rint" + sg, "const:d": "cd" + sg,
+            "integer::number": "num" + sg, "const:i": "ci" + sg, "const:s": "cs",
+            "boolean::zero": "zero", "boolean::one": "one"}[k]
+
+
+# ---------------------------------------------------------------------------------------------
 # encodings for the harness and the driver
 # ---------------------------------------------------------------------------------------------
 
@@ -259,24 +496,18 @@ def term_bits(t):
     return 0
 
 
-def harness_line(syms, t, inputs):
-    cm = cat_map(result_dom(syms, t))
-    genes = []
+def harness_gene(syms, cm, g):
+    if g[0] == "T":
+        return "%s %d %d 0" % (term_key(g), cm[g[3]], term_bits(g))
+    s = syms[g[1]]
+    cats = [cm[g[2][0]]] + ([cm[g[2][1]]] if s.ncats == 2 else [])
+    return "%s %s 0 %d %s" % (g[1], ",".join(map(str, cats)), len(g[3]), " ".join(map(str, g[3])))
 
-    def walk(n):
-        idx = len(genes)
-        genes.append(None)
-        if n[0] == "T":
-            genes[idx] = "%s %d %d 0" % (term_key(n), cm[n[3]], term_bits(n))
-        else:
-            s = syms[n[1]]
-            cats = [cm[n[2][0]]] + ([cm[n[2][1]]] if s.ncats == 2 else [])
-            ks = [walk(k) for k in n[3]]
-            genes[idx] = "%s %s 0 %d %s" % (n[1], ",".join(map(str, cats)), len(ks), " ".join(map(str, ks)))
-        return idx
 
-    walk(t)
-    line = "prog %d %s %d" % (len(genes), " ".join(genes), len(inputs))
+def harness_line(syms, G, inputs):
+    cm = {d: i for i, d in enumerate(G.doms)}
+    genes = [harness_gene(syms, cm, G.cells[(r, c)]) for r in range(G.n) for c in range(len(G.doms))]
+    line = "genome %d %d %s %d" % (G.n, len(G.doms), " ".join(genes), len(inputs))
     for ex in inputs:
         line += " %d %s" % (len(ex), " ".join(ex))
     return line
@@ -293,6 +524,19 @@ def driver_tree(t, fidx, tidx):
         text = t[2][0] if k == "var" else (t[2] if k == "const:s" else "")
         return "T %d %s %d" % (tidx[TERM_MODEL_KEY[k]], hx(text), term_bits(t))
     return "F %d %d %s" % (fidx[t[1]], len(t[3]), " ".join(driver_tree(k, fidx, tidx) for k in t[3]))
+
+
+def driver_genome(gen, G, fidx, tidx):
+    out = ["%d %d" % (G.n, len(G.doms))]
+    for r in range(G.n):
+        for c in range(len(G.doms)):
+            g = G.cells[(r, c)]
+            if g[0] == "T":
+                out.append(driver_tree(g, fidx, tidx))
+            else:
+                al = arg_loci(gen, G, g)
+                out.append("F %d %d %s" % (fidx[g[1]], len(al), " ".join("%d %d" % (ac, a) for a, ac in al)))
+    return " ".join(out)
 
 
 # ---------------------------------------------------------------------------------------------
@@ -480,11 +724,18 @@ def compile_and_run(tag, progs, inputs_of):
                 errors[order[culprit]] = "the compiled expression died with signal %d" % (-rc2)
                 start = culprit + 1
             return vals, errors
-        badl = {}
-        for m in re.finditer(r"%s:(\d+):\d+: error: ([^\n]*)" % re.escape(src), se):
+        badl, pending = {}, None
+        for m in re.finditer(r"%s:(\d+):\d+: (error|note): ([^\n]*)" % re.escape(src), se):
             ln = int(m.group(1))
-            if ln in line_of:
-                badl.setdefault(line_of[ln], m.group(2))
+            if m.group(2) == "error":
+                pending = None
+                if ln in line_of:
+                    badl.setdefault(line_of[ln], m.group(3))
+                else:
+                    pending = m.group(3)       # inside a helper macro of the prelude: the use follows as a note
+            elif pending is not None and ln in line_of and "in expansion of macro" in m.group(3):
+                badl.setdefault(line_of[ln], pending)
+                pending = None
         if not badl:
             for pid, _, _ in live:
                 errors[pid] = "gcc failed, no attributable line: " + se[-300:]
@@ -705,8 +956,11 @@ def run(chk, replay=None):
     g_exact = Gen(rng, syms, True)
     g_any = Gen(rng, syms, False)
     programs = []          # (tree, origin)
+    genomes = {}           # pid -> (Genome, layout mode, share mode)
 
-    def add(t, origin):
+    def add(t, origin, G=None):
+        if G is not None:
+            genomes[len(programs)] = G
         programs.append((t, origin))
 
     # corpus (regressions) first
@@ -719,10 +973,20 @@ def run(chk, replay=None):
                     corpus.append(tuple_tree(item["tree"]))
     if replay:
         r = json.load(open(replay))
-        corpus = [tuple_tree(r["replay"]["tree"])] if "tree" in r.get("replay", {}) else corpus
+        rp = r.get("replay", {})
+        if "tree" in rp:
+            corpus = []
+            add(tuple_tree(rp["tree"]), "corpus",
+                (Genome.from_json(rp["genome"]), rp.get("layout", "?"), rp.get("share", "?")) if "genome" in rp else None)
     for t in corpus:
         add(t, "corpus")
+    for fn in (sorted(os.listdir(cdir)) if os.path.isdir(cdir) and not replay else []):
+        if fn.endswith(".genomes"):
+            for item in json.load(open(os.path.join(cdir, fn))):
+                add(tuple_tree(item["tree"]), "corpus",
+                    (Genome.from_json(item["genome"]), item.get("layout", "?"), item.get("share", "?")))
 
+    possible_triples = set()
     if not replay:
         # every parent / argument position / child symbol
         child_kinds = {d: [("T", k) for k in g_exact.term_kinds(d)] + [("F", p) for p in g_exact.producers(d)]
@@ -733,6 +997,7 @@ def run(chk, replay=None):
                     doms = g_exact.arg_doms(s, d0, d1)
                     for pos, d in enumerate(doms):
                         for ck in child_kinds[d]:
+                            possible_triples.add((s.key, d0 + d1, pos, ck[1] if ck[0] == "T" else ck[1][0].key))
                             g = g_exact if rng.chance(0.8) else g_any
                             if ck[0] == "T":
                                 child = g.terminal(d, ck[1])
@@ -787,18 +1052,76 @@ def run(chk, replay=None):
             add(("F", "str::ife", ("S", "R"), [a, b, ("T", "real::real", dbits(1.0), "R"),
                                                ("T", "real::real", dbits(2.0), "R")]), "sife-strings")
 
+        # genomes filled the way vita fills them (every locus a random gene of its category): the
+        # program is a DAG – one gene is the argument of several parents / of several positions of one
+        # parent – and several genes of a row are active
+        for i in range(500 if quick else 8000):
+            g = g_exact if i % 2 == 0 else g_any
+            nd = rng.between(1, 5)
+            doms = [rng.choice(["R", "R", "S", "I", "B"])]
+            while len(doms) < nd:
+                d = rng.choice(DOMS)
+                if d not in doms:
+                    doms.append(d)
+            for attempt in range(8):
+                G = random_genome(g, rng, rng.between(3, 9 - attempt // 2), doms, 0.75)
+                try:
+                    t = unfold(g, G, budget=150)
+                except TooBig:
+                    continue
+                if t[0] == "F":
+                    add(t, "random-genome", (G, "random-genome", "dag"))
+                    break
+        # long chains (deep programs: the recursion of language() goes through many rows)
+        for i in range(40 if quick else 400):
+            g = g_exact if i % 2 == 0 else g_any
+            d = rng.choice(DOMS)
+            t = g.terminal(d)
+            for _ in range(rng.between(15, 41)):
+                gps = [(q, q0, q1) for dd in DOMS for (q, q0, q1) in g.producers(dd) if d in g.arg_doms(q, q0, q1)]
+                q, q0, q1 = rng.choice(gps)
+                qpos = rng.choice([j for j, x in enumerate(g.arg_doms(q, q0, q1)) if x == d])
+                fixed = {qpos: t}
+                for j, x in enumerate(g.arg_doms(q, q0, q1)):    # short siblings: the text stays linear
+                    if j != qpos:
+                        fixed[j] = t if (x == d and rng.chance(0.08) and node_count(t) < 40) else g.terminal(x)
+                t = ("F", q.key, (q0, q1), [fixed[j] for j in range(q.arity)])
+                d = result_dom(syms, t)
+            if node_count(t) < 400:
+                add(t, "chain")
+        # the same program in other layouts (the text must not depend on the layout)
+        base = [pid for pid, (t, o) in enumerate(programs) if t[0] == "F" and pid not in genomes]
+        for i in range(400 if quick else 6000):
+            pid = rng.choice(base)
+            t = programs[pid][0]
+            add(t, "relayout", layout(g_exact, rng, t, rng.choice(["packed", "spread"]), rng.choice(["all", "some"])))
+
+    # every program that has no genome yet gets a random layout
+    for pid, (t, origin) in enumerate(programs):
+        if pid not in genomes:
+            genomes[pid] = layout(g_exact, rng, t)
+        if os.environ.get("VERIF_C19_DEBUG") and unfold(g_exact, genomes[pid][0]) != t:
+            raise RuntimeError("layout does not unfold to the program: " + show(t))
+
     # ---- run vita -----------------------------------------------------------------------------
     nin = 3 if quick else 6
     lines, inputs_of = [], {}
     for pid, (t, origin) in enumerate(programs):
         ins = input_vectors(rng, nin)
         inputs_of[pid] = ins
-        lines.append(harness_line(syms, t, ins))
+        lines.append(harness_line(syms, genomes[pid][0], ins))
     cpp, deaths = C.run_lines(exe, lines)
+
+    def replay_of(pid, **extra):
+        G, mode, share = genomes[pid]
+        o = {"tree": list_tree(programs[pid][0]), "genome": G.to_json(), "layout": mode, "share": share}
+        o.update(extra)
+        return o
+
     for idx, rc_, se_ in deaths:
         t = programs[idx][0]
         chk.violation("harness died (rc=%d) while printing/evaluating %s\n%s" % (rc_, show(t), se_[-1200:]),
-                      {"tree": list_tree(t)}, tags={"kind": "crash", "strings": str_class(t)})
+                      replay_of(idx), tags={"kind": "crash", "strings": str_class(t)})
 
     texts, values = {}, {}
     for pid, ans in enumerate(cpp):
@@ -807,17 +1130,20 @@ def run(chk, replay=None):
                 broken.append("harness rejected a generated program: %s" % show(programs[pid][0]))
             continue
         parts = ans.split(" ; ")
-        texts[pid] = [unhx(h).decode("latin1") for h in parts[0].split()]
+        head = parts[0].split()
+        texts[pid] = [unhx(h).decode("latin1") for h in head[:4]]
         values[pid] = parts[1:]
+        if head[4:] != ["valid=1"]:
+            broken.append("i_mep::is_valid() rejects a generated genome: %s" % json.dumps(genomes[pid][0].to_json()))
 
     # ---- model (driver) ------------------------------------------------------------------------
     verdict = {}
     if drv_ok:
         dl, keys = [], []
         for pid in texts:
-            tt = driver_tree(programs[pid][0], fidx, tidx)
+            tt = driver_genome(g_exact, genomes[pid][0], fidx, tidx) + " " + driver_tree(programs[pid][0], fidx, tidx)
             for f in range(4):
-                dl.append("chk %d %s %s" % (f, hx(texts[pid][f]), tt))
+                dl.append("gchk %d %s %s" % (f, hx(texts[pid][f]), tt))
                 keys.append((pid, f))
         ans = C.run_driver("c19_driver", dl)
         for k, a in zip(keys, ans):
@@ -825,11 +1151,35 @@ def run(chk, replay=None):
 
     # ---- pair matrix / distribution ---------------------------------------------------------------
     pairs = {}
+    seen_triples = set()
     for pid in texts:
         t, origin = programs[pid]
         chk.count("origin:" + origin)
-        chk.count("depth:%d" % min(depth(t), 8))
+        dp = depth(t)
+        chk.count("depth:%s" % (dp if dp < 8 else "8-15" if dp < 16 else "16-31" if dp < 32 else "32+"))
         chk.count("root_domain:" + result_dom(syms, t))
+        G, mode, share = genomes[pid]
+        st = genome_stats(g_exact, G)
+        chk.count("layout:" + mode)
+        chk.count("genome_categories:%d" % len(G.doms))
+        chk.count("genome_rows:%s" % (G.n if G.n < 8 else "8-15" if G.n < 16 else "16-31" if G.n < 32 else "32+"))
+        if st["shared_rows"]:
+            chk.count("programs_with_several_active_genes_in_one_row")
+            chk.count("active_genes_in_one_row_max:%d" % st["max_in_row"])
+        if st["shared_genes"]:
+            chk.count("programs_with_a_gene_referenced_from_several_places")
+            chk.count("references_to_one_gene_max:%s" % (st["max_refs"] if st["max_refs"] < 5 else "5+"))
+        if st["same_gene_twice_in_one_parent"]:
+            chk.count("programs_with_one_gene_in_two_argument_positions_of_a_parent")
+        if st["active"] < G.n * len(G.doms):
+            chk.count("programs_with_inactive_genes")
+
+        def walk3(n):
+            if n[0] == "F":
+                for i, k in enumerate(n[3]):
+                    seen_triples.add((n[1], n[2][0] + n[2][1], i, k[1] if k[0] == "F" else term_kind_of(k)))
+                    walk3(k)
+        walk3(t)
 
         def walkp(n):
             if n[0] == "F":
@@ -850,6 +1200,15 @@ def run(chk, replay=None):
     chk.cov["pair_matrix"] = {"children": children,
                               "rows": {p: [pairs[p].get(c, 0) for c in children] for p in sorted(pairs)}}
     chk.cov["pair_matrix_cells_covered"] = sum(1 for p in pairs.values() for c in p.values() if c)
+    # (parent symbol [category instantiation], argument position, child symbol / terminal kind)
+    missing = sorted(possible_triples - seen_triples)
+    chk.cov["triples"] = {"type_compatible": len(possible_triples),
+                          "covered": len(possible_triples & seen_triples),
+                          "covered_symbol_level": len({(a, c, d) for a, b, c, d in seen_triples}),
+                          "not_covered": ["%s[%s] arg %d <- %s" % m for m in missing[:50]]}
+    if missing and not replay:
+        broken.append("generator: %d type-compatible (parent, position, child) triples were not exercised, e.g. %r"
+                      % (len(missing), missing[0]))
 
     # ---- per program / format checks ---------------------------------------------------------------
     fails = []       # (size, what, replay, tags)
@@ -857,10 +1216,12 @@ def run(chk, replay=None):
     def fail(pid, f, kind, detail):
         t = programs[pid][0]
         tags = {"kind": kind, "fmt": FMT[f], "strings": str_class(t), "origin": programs[pid][1]}
-        what = "[%s/%s] %s\n  program: %s\n  printed: %s" % (FMT[f], kind, detail, show(t), texts[pid][f][:400])
-        fails.append((node_count(t), what, {"tree": list_tree(t), "format": FMT[f], "kind": kind,
-                                             "printed": texts[pid][f], "detail": detail,
-                                             "inputs": inputs_of[pid]}, tags))
+        what = "[%s/%s] %s\n  program: %s\n  printed: %s\n  genome (active genes, %d rows x %d categories, %s/%s): %s" % (
+            FMT[f], kind, detail, show(t), texts[pid][f][:400], genomes[pid][0].n, len(genomes[pid][0].doms),
+            genomes[pid][1], genomes[pid][2], show_genome(g_exact, genomes[pid][0])[:600])
+        tags["layout"] = genomes[pid][1]
+        fails.append((node_count(t), what, replay_of(pid, format=FMT[f], kind=kind, printed=texts[pid][f],
+                                                     detail=detail, inputs=inputs_of[pid]), tags))
 
     ndis_model = 0
     for pid in texts:
@@ -878,6 +1239,11 @@ def run(chk, replay=None):
             if not flags:
                 broken.append("driver answered %r" % v)
                 continue
+            if flags.get("unf") != "1":
+                broken.append("the Lean model unfolds the genome of %s into a different program than the generator"
+                              % show(t))
+            if flags.get("wf") != "1":
+                broken.append("wfRows (model of i_mep::is_valid) rejects a genome that is_valid() accepts: %s" % show(t))
             if flags["render"] != "1":
                 ndis_model += 1
                 if texts[pid][f] == want:
@@ -1063,9 +1429,11 @@ def run(chk, replay=None):
         tags = dict(tags)
         tags["symbols"] = ",".join(sorted(set(symbols_of(tuple_tree(rep["tree"])))))
         groups.setdefault((tags["kind"], tags["fmt"]), []).append((what, rep, tags))
+    prio = ["text-vs-substitution", "sequential-replace", "parse", "terminal-not-an-operand", "python-syntax",
+            "python-ast", "clang-syntax", "clang-ast", "gcc-compile", "value", "value-sigmoid-formula"]
     rank = 0
     while any(len(g) > rank for g in groups.values()) and rank < 40:
-        for key in sorted(groups):
+        for key in sorted(groups, key=lambda k: (prio.index(k[0]) if k[0] in prio else len(prio), k[1])):
             if len(groups[key]) > rank:
                 what, rep, tags = groups[key][rank]
                 chk.violation(what, rep, tags=tags)
